@@ -12,6 +12,9 @@
 //!       ["wait", b] | ["drop_handle", h] | ["drop_barrier", b] |
 //!       ["abandon", src]  (the source gives up the trigger call it is parked in: select! with a cancel signal) |
 //!       ["kill", src]     (the source itself is dropped: JoinHandle::abort / Sim::crash of the host) |
+//!       ["corrupt_then", src, n, [action..]]  (sim mode: like corrupt_read, then - in the same poll, hence the
+//!                                  same host tick - the host code performs the actions
+//!                                  ["build", ty, reaction, cond] | ["drop_barrier", b] | ["mark"]) |
 //!       ["corrupt_read", src, n]  (sim mode: the source reads one byte at offset n of its file with
 //!                                  corruption_probability 1, so turmoil-fs fires the corruption hook,
 //!                                  i.e. trigger_noop(FsCorruption{offset: n, ..}), synchronously)
@@ -19,7 +22,7 @@
 //!   cond = ["any"] | ["never"] | ["eq",k] | ["gt",k] | ["mod",m,r]
 //! After every command the harness lets the sources run until quiescent and
 //! records, per source, (trigger calls started, trigger calls returned, task finished).
-//! obs per command = [result, [[started, returned, finished, abandoned, killed]..]]
+//! obs per command = [result, [[started, returned, finished, abandoned, killed, marks]..]]
 
 use futures_util::FutureExt;
 use serde_json::{json, Value};
@@ -74,6 +77,7 @@ enum SrcCmd {
     Trig(u64, u64),
     Noop(u64, u64),
     CorruptRead(u64),
+    CorruptThen(u64, Vec<Value>),
 }
 
 struct Src {
@@ -84,9 +88,44 @@ struct Src {
     returned: Cell<u64>,
     abandoned: Cell<u64>,
     killed: Cell<bool>,
+    marks: Cell<u64>,
 }
 
-async fn source_loop(s: Rc<Src>) {
+/// One byte at offset `n` of the host's file, read through the std shim (corruption
+/// probability 1: turmoil-fs fires the corruption hook inside the read). The handle is
+/// leaked on purpose: if the hook panics the fs mutex is poisoned and dropping an open
+/// File while unwinding would abort the process.
+fn corrupt_read(n: u64) {
+    use std::os::unix::fs::FileExt;
+    use turmoil::fs::shim::std::fs::OpenOptions;
+    let path = "/corrupt_me";
+    let f = match OpenOptions::new().read(true).write(true).open(path) {
+        Ok(f) => f,
+        Err(_) => {
+            let f = OpenOptions::new().read(true).write(true).create(true).open(path).expect("create");
+            f.write_at(&[7u8; 16], 0).expect("fill");
+            f
+        }
+    };
+    let f = std::mem::ManuallyDrop::new(f);
+    let mut b = [0u8; 1];
+    let _ = f.read_at(&mut b, n);
+}
+
+fn build_barrier(c: &Value) -> AnyBarrier {
+    let ty = c[1].as_u64().unwrap();
+    let r = reaction(&c[2]);
+    let f = cond_fn(&c[3]);
+    if ty == 0 {
+        AnyBarrier::A(Barrier::build(r, move |t: &TA| f(t.0)))
+    } else if ty == 1 {
+        AnyBarrier::B(Barrier::build(r, move |t: &TB| f(t.0)))
+    } else {
+        AnyBarrier::C(Barrier::build(r, move |t: &turmoil::fs::FsCorruption| f(t.offset)))
+    }
+}
+
+async fn source_loop(s: Rc<Src>, test: Option<Rc<RefCell<Test>>>) {
     loop {
         let cmd = s.q.borrow_mut().pop_front();
         let Some(cmd) = cmd else {
@@ -109,20 +148,25 @@ async fn source_loop(s: Rc<Src>) {
             }
             SrcCmd::Noop(0, n) => trigger_noop(TA(n)),
             SrcCmd::Noop(_, n) => trigger_noop(TB(n)),
-            SrcCmd::CorruptRead(n) => {
-                use std::os::unix::fs::FileExt;
-                use turmoil::fs::shim::std::fs::OpenOptions;
-                let path = "/corrupt_me";
-                let f = match OpenOptions::new().read(true).write(true).open(path) {
-                    Ok(f) => f,
-                    Err(_) => {
-                        let f = OpenOptions::new().read(true).write(true).create(true).open(path).expect("create");
-                        f.write_at(&[7u8; 16], 0).expect("fill");
-                        f
+            SrcCmd::CorruptRead(n) => corrupt_read(n),
+            SrcCmd::CorruptThen(n, actions) => {
+                corrupt_read(n);
+                // still the same poll of this task, i.e. the same host tick
+                for a in &actions {
+                    match a[0].as_str().unwrap() {
+                        "mark" => s.marks.set(s.marks.get() + 1),
+                        "build" => {
+                            let b = build_barrier(a);
+                            test.as_ref().unwrap().borrow_mut().barriers.push(Some(b));
+                        }
+                        "drop_barrier" => {
+                            let b = a[1].as_u64().unwrap() as usize;
+                            let taken = test.as_ref().unwrap().borrow_mut().barriers.get_mut(b).and_then(|x| x.take());
+                            drop(taken);
+                        }
+                        x => panic!("unknown action {x}"),
                     }
-                };
-                let mut b = [0u8; 1];
-                let _ = f.read_at(&mut b, n);
+                }
             }
         }
         s.returned.set(s.returned.get() + 1);
@@ -140,20 +184,11 @@ impl Test {
         let name = c[0].as_str().unwrap();
         match name {
             "build" => {
-                let ty = c[1].as_u64().unwrap();
-                let r = reaction(&c[2]);
-                let f = cond_fn(&c[3]);
-                let b = if ty == 0 {
-                    AnyBarrier::A(Barrier::build(r, move |t: &TA| f(t.0)))
-                } else if ty == 1 {
-                    AnyBarrier::B(Barrier::build(r, move |t: &TB| f(t.0)))
-                } else {
-                    AnyBarrier::C(Barrier::build(r, move |t: &turmoil::fs::FsCorruption| f(t.offset)))
-                };
+                let b = build_barrier(c);
                 self.barriers.push(Some(b));
                 json!(self.barriers.len() - 1)
             }
-            "trigger" | "trigger_noop" | "corrupt_read" => {
+            "trigger" | "trigger_noop" | "corrupt_read" | "corrupt_then" => {
                 let s = c[1].as_u64().unwrap() as usize;
                 let src = &srcs[s];
                 if src.started.get() != src.returned.get() + src.abandoned.get() || finished(s) || src.killed.get() {
@@ -164,8 +199,10 @@ impl Test {
                     SrcCmd::Trig(ty, n)
                 } else if name == "trigger_noop" {
                     SrcCmd::Noop(ty, n)
-                } else {
+                } else if name == "corrupt_read" {
                     SrcCmd::CorruptRead(ty)
+                } else {
+                    SrcCmd::CorruptThen(ty, c[3].as_array().cloned().unwrap_or_default())
                 });
                 src.notify.notify_one();
                 json!("sent")
@@ -239,7 +276,7 @@ fn states(srcs: &[Rc<Src>], finished: &dyn Fn(usize) -> bool) -> Value {
     json!(srcs
         .iter()
         .enumerate()
-        .map(|(i, s)| json!([s.started.get(), s.returned.get(), finished(i), s.abandoned.get(), s.killed.get()]))
+        .map(|(i, s)| json!([s.started.get(), s.returned.get(), finished(i), s.abandoned.get(), s.killed.get(), s.marks.get()]))
         .collect::<Vec<_>>())
 }
 
@@ -254,6 +291,7 @@ fn new_srcs(n: usize) -> Vec<Rc<Src>> {
                 returned: Cell::new(0),
                 abandoned: Cell::new(0),
                 killed: Cell::new(false),
+                marks: Cell::new(0),
             })
         })
         .collect()
@@ -267,7 +305,7 @@ fn run_local(case: &Value) -> Value {
     let mut obs = Vec::new();
     local.block_on(&rt, async {
         let joins: Vec<tokio::task::JoinHandle<()>> =
-            srcs.iter().map(|s| tokio::task::spawn_local(source_loop(s.clone()))).collect();
+            srcs.iter().map(|s| tokio::task::spawn_local(source_loop(s.clone(), None))).collect();
         let finished = |i: usize| joins[i].is_finished();
         let mut test = Test { barriers: vec![], handles: vec![] };
         for c in case["script"].as_array().unwrap() {
@@ -306,27 +344,30 @@ fn run_sim(case: &Value) -> Value {
     bld.fs().corruption_probability(1.0);
     let mut sim = bld.build();
     let srcs = new_srcs(nsrc);
+    let test = Rc::new(RefCell::new(Test { barriers: vec![], handles: vec![] }));
     for (i, s) in srcs.iter().enumerate() {
         let s = s.clone();
+        let t = test.clone();
         // odd sources are clients, even ones hosts: both kinds of software
         if i % 2 == 0 {
             sim.host(format!("s{i}"), move || {
                 let s = s.clone();
+                let t = t.clone();
                 async move {
-                    source_loop(s).await;
+                    source_loop(s, Some(t)).await;
                     Ok(())
                 }
             });
         } else {
             sim.client(format!("s{i}"), async move {
-                source_loop(s).await;
+                source_loop(s, Some(t)).await;
                 Ok(())
             });
         }
     }
     let mut obs = Vec::new();
-    let mut test = Test { barriers: vec![], handles: vec![] };
-    let dead: Vec<bool> = vec![false; nsrc];
+    let mut dead: Vec<bool> = vec![false; nsrc];
+    let mut step_panic = Value::Null;
     for c in case["script"].as_array().unwrap() {
         let r = if c[0] == "kill" {
             let i = c[1].as_u64().unwrap() as usize;
@@ -337,19 +378,48 @@ fn run_sim(case: &Value) -> Value {
             Value::Null
         } else {
             let fin = |i: usize| dead[i];
-            test.cmd(c, &srcs, &fin)
+            let mut t = test.borrow_mut();
+            t.cmd(c, &srcs, &fin)
         };
-        // (sim-mode scripts contain no panicking reaction: a panic in host
-        // software propagates out of Sim::step and ends the simulation)
+        // A panic in host software (Panic reaction hit from the fs corruption hook)
+        // propagates out of Sim::step and ends the simulation: record what is visible
+        // and stop the script there.
+        let mut panicked = None;
         for _ in 0..2 {
-            sim.step().expect("step");
+            let res = std::panic::catch_unwind(std::panic::AssertUnwindSafe(|| sim.step()));
+            match res {
+                Ok(Ok(_)) => {}
+                Ok(Err(e)) => panicked = Some(format!("step error: {e}")),
+                Err(e) => panicked = Some(vharness::panic_message(e)),
+            }
+            if panicked.is_some() {
+                break;
+            }
+        }
+        if let Some(msg) = panicked {
+            if let Some(i) = c.get(1).and_then(|x| x.as_u64()) {
+                if matches!(c[0].as_str(), Some("corrupt_then") | Some("corrupt_read") | Some("trigger") | Some("trigger_noop")) {
+                    dead[i as usize] = true;
+                }
+            }
+            let fin = |i: usize| dead[i];
+            obs.push(json!([r, states(&srcs, &fin)]));
+            step_panic = json!(msg);
+            break;
         }
         let fin = |i: usize| dead[i];
         obs.push(json!([r, states(&srcs, &fin)]));
     }
-    test.handles.clear();
-    test.barriers.clear();
-    json!({ "obs": obs, "panic": Value::Null })
+    {
+        let mut t = test.borrow_mut();
+        t.handles.clear();
+        t.barriers.clear();
+    }
+    if !step_panic.is_null() {
+        // the host's Fs mutex is poisoned: do not run any destructor of the simulation
+        std::mem::forget(sim);
+    }
+    json!({ "obs": obs, "step_panic": step_panic, "panic": Value::Null })
 }
 
 fn run_case(case: &Value) -> Value {
